@@ -12,11 +12,11 @@ reg("C04",
     thorough=dict(defs=dict(NCYC=3, NOPS=2, NK=2, BIG_LAST=1, GMAX=1000), symx=dict(shards=16, **{"max-wall": 3000, "shard-depth": 8})),
     reach=["end", "shape_ts", "shape_signal", "shape_tss", "shape_tsd", "shape_tsb", "shape_tsl", "shape_tsw", "shape_tsd_tsb",
            "late_consumer_bound", "idle_cycle", "second_write_same_cycle", "invalidated", "child_only_write", "child_invalidated",
-           "whole_value_write", "key_added", "key_erased", "key_resurrected_same_cycle", "noop_remove_ticks", "window_cleared", "window_rolled"],
+           "whole_value_write", "whole_value_write_without_fields", "whole_value_write_one_field", "key_added", "key_erased", "key_resurrected_same_cycle", "noop_remove_ticks", "window_cleared", "window_rolled"],
     bounds="unit level, no graph: one real TSOutput of each shape in {TS<int>, SIGNAL, TSS<int>, TSD<int,TS<int>>, TSB{a,b}, TSL<TS<int>,2>, TSW<int,2,1>, "
            "TSD<int,TSB{a,b}>} (enumerated) with three real TSInput consumers bound to it (passive; active with a notifier; bound one cycle late); NCYC cycles "
            "(NCYC+1 for TS/SIGNAL/TSW) of NOPS producer operations each (BIG_LAST in the last cycle of the two TSD shapes and of TSW), operations enumerated from "
-           "{nothing, write, write twice, child-only write, whole-value write (TSB), invalidate root, invalidate child, add/remove/clear (TSS), set/erase/clear/"
+           "{nothing, write, write twice, child-only write, whole-value write through the parent with both / no / one child set (TSB, TSL), invalidate root, invalidate child, add/remove/clear (TSS), set/erase/clear/"
            "element write/element invalidate (TSD), push/clear/clear+push (TSW)}; keys from {0..NK-1} concrete; base time in [0,1e6] us, every gap between "
            "cycles in [1,GMAX] us and every payload in [-1e6,1e6] symbolic; all flags checked at the cycle time and at the following idle instant (T+1 us)",
     outside="more cycles/operations per cycle; REF shapes and forwarding outputs (C13); duration-based windows; unbinding / rebinding consumers (C13/C11); "
